@@ -6,16 +6,20 @@ From RV Require Import Paths.Model Paths.Basics.
 Section E.
 Variable g : graph.
 
-(* the situation in which a sub-evaluator is called: either the sub-path is
-   free of the F4d pattern, or every bound end is a node of the graph *)
+Definition end_nd (e : option term) : bool :=
+  match e with None => true | Some a => memb N.eqb a (nodes g) end.
+
+(* the situation in which a sub-evaluator is called: a side condition K on the
+   sub-path holds, or every bound end is a node of the graph (the final theorems
+   instantiate K with True; the parameter dates from the time of finding F4d) *)
 Definition cond (K : Prop) (s o : option term) : Prop :=
-  K \/ (end_nd g s = true /\ end_nd g o = true).
+  K \/ (end_nd s = true /\ end_nd o = true).
 
 Definition ev_spec (f : ev) (R : rel) (K : Prop) : Prop :=
   forall s o, cond K s o ->
     exists l, f s o = Ok l /\ forall x y, In (x, y) l <-> R x y /\ ends_ok g s o x y.
 
-Lemma end_nd_In a : end_nd g (Some a) = true <-> In a (nodes g).
+Lemma end_nd_In a : end_nd (Some a) = true <-> In a (nodes g).
 Proof. simpl. apply memb_In, N.eqb_spec. Qed.
 
 Lemma cond_weaken (K K' : Prop) s o : (K -> K') -> cond K s o -> cond K' s o.
@@ -67,9 +71,7 @@ Section Lists.
 Variable F : path -> ev.
 Variable Rf : path -> rel.
 Variable Kf : path -> Prop.
-Variable Nf : path -> bool.
 Hypothesis Rf_RN : forall a, RN g (Rf a).
-Hypothesis Nf_refl : forall a b, ~ In b (nodes g) -> Rf a b b -> Nf a = true.
 
 Definition good (a : path) : Prop := ev_spec (F a) (Rf a) (Kf a).
 Definition allK (l : list path) : Prop := forall a, In a l -> Kf a.
@@ -165,7 +167,7 @@ Qed.
 
 (* start unbound, two or more steps: the first step is evaluated with both ends unbound *)
 Lemma seq_fw_unbound p rest o : rest <> [] -> Forall good (p :: rest) ->
-  allK (p :: rest) \/ end_nd g o = true ->
+  allK (p :: rest) \/ end_nd o = true ->
   exists r, seq_fw (map F (p :: rest)) None o = Ok r
             /\ forall x y, In (x, y) r <->
                  exists z, Rf p x z /\ In x (nodes g) /\ In z (nodes g)
@@ -217,119 +219,80 @@ Proof.
       destruct (Rf_RN _ _ _ HR) as [<-|[_ ?]]; auto.
 Qed.
 
-(* the F4d-free condition of a sequence *)
-Definition Kseq (l : list path) : Prop :=
-  (length l < 3 \/ ~ Forall (fun a => Nf a = true) l) /\ allK l.
+Lemma seq_bwr_one f s o : seq_bwr [f] s o = f s o.
+Proof. reflexivity. Qed.
 
-Lemma seq_refl_nullable l b : ~ In b (nodes g) -> seq_rel (map Rf l) b b ->
-  Forall (fun a => Nf a = true) l.
-Proof.
-  intros Hb. induction l as [|a l IH]; simpl; [constructor|].
-  intros (z & H1 & H2). destruct (Rf_RN _ _ _ H1) as [<-|[Hx _]]; [|tauto].
-  constructor; eauto.
-Qed.
-
-Lemma seq_bw_snoc init pl s o : init <> [] ->
-  seq_bw (map F (init ++ [pl])) s o =
-  bind (F pl None o) (fun xs =>
+Lemma seq_bwr_cons f rest s o : rest <> [] ->
+  seq_bwr (f :: rest) s o =
+  bind (f None o) (fun xs =>
     rconcat (map (fun sz : pr =>
-      rmap (map (fun r : pr => (fst r, snd sz))) (seq_fw (map F init) s (Some (fst sz)))) xs)).
+      rmap (map (fun r : pr => (fst r, snd sz))) (seq_bwr rest s (Some (fst sz)))) xs)).
+Proof. destruct rest; [congruence|reflexivity]. Qed.
+
+Lemma seq_rel_snoc l R x y : seq_rel (l ++ [R]) x y <-> exists z, seq_rel l x z /\ R z y.
 Proof.
-  intros Hne. unfold seq_bw. rewrite map_app. simpl map.
-  rewrite removelast_last, last_last. destruct init; [congruence|reflexivity].
+  rewrite seq_rel_app. split; intros (z & H1 & H2); exists z; split; auto; apply seq_rel_one; auto.
 Qed.
 
-(* start unbound, end bound: what the forward evaluation delivers *)
-Lemma seq_fw_end init z : init <> [] -> Forall good init ->
-  allK init \/ end_nd g (Some z) = true ->
-  exists r0, seq_fw (map F init) None (Some z) = Ok r0
-    /\ forall x y, In (x, y) r0 <->
-         seq_rel (map Rf init) x y /\ y = z /\ (2 <= length init -> In x (nodes g)).
+(* end bound, evaluated backwards (rl is the reversed list of steps): exact *)
+Lemma seq_bwr_bound rl : rl <> [] -> Forall good rl ->
+  forall s b, cond (allK rl) s (Some b) ->
+  exists r, seq_bwr (map F rl) s (Some b) = Ok r
+            /\ forall x y, In (x, y) r <-> seq_rel (map Rf (rev rl)) x y /\ y = b /\ end_okP s x.
 Proof.
-  intros Hni Hgi Hcz. destruct init as [|p0 init']; [congruence|].
-  destruct init' as [|p1 init''].
-  - inversion Hgi as [|? ? Hp0 _]; subst. simpl map. rewrite seq_fw_one.
-    destruct (Hp0 None (Some z)) as (r0 & Hr0 & Hin0).
-    { destruct Hcz as [Hk|Hn]; [left; apply Hk; simpl; auto|right; auto]. }
-    exists r0. split; auto. intros x y. rewrite Hin0, seq_rel_one. simpl. split.
-    + intros [? ->]. repeat split; auto. intros; lia.
-    + intros (? & -> & _). auto.
-  - destruct (@seq_fw_unbound p0 (p1 :: init'') (Some z)) as (r0 & Hr0 & Hin0); auto; [congruence|].
-    exists r0. split; auto. intros x y. rewrite Hin0. simpl end_okP. split.
-    + intros (w & HR & Hx & Hw & Hs & ->). split; [simpl; eauto|]. split; auto.
-    + intros ((w & HR & Hs) & -> & Hx). exists w.
-      assert (Hxn : In x (nodes g)) by (apply Hx; simpl; lia).
-      repeat split; auto. destruct (Rf_RN _ _ _ HR) as [<-|[_ ?]]; auto.
-Qed.
-
-Lemma seq_bw_spec l : l <> [] -> Forall good l ->
-  forall b, cond (Kseq l) None (Some b) ->
-  exists r, seq_bw (map F l) None (Some b) = Ok r
-            /\ forall x y, In (x, y) r <-> seq_rel (map Rf l) x y /\ y = b.
-Proof.
-  intros Hne Hg b Hc. destruct (exists_last Hne) as (init & pl & ->).
-  apply Forall_app in Hg. destruct Hg as [Hgi Hgl]. inversion Hgl as [|? ? Hpl _]; subst.
-  destruct (list_eq_dec (fun a b : unit => left (match a, b with tt, tt => eq_refl end)) (map (fun _ => tt) init) [])
-    as [Hnil|Hni0].
-  - (* one step *)
-    destruct init; [|discriminate].
-    simpl. destruct (Hpl None (Some b)) as (r & Hr & Hin).
-    { destruct Hc as [[_ Hk]|Hn]; [left; apply Hk; simpl; auto|right; auto]. }
-    exists r. split; auto. intros x y. rewrite Hin. simpl. split.
-    + intros [HR ->]. split; eauto.
-    + intros [(z & HR & <-) ->]. auto.
-  - assert (Hni : init <> []) by (intros ->; apply Hni0; reflexivity). clear Hni0.
-    rewrite seq_bw_snoc by auto.
-    destruct (Hpl None (Some b)) as (xs & Hxs & Hxin).
-    { destruct Hc as [[_ Hk]|Hn]; [left; apply Hk; apply in_or_app; simpl; auto|right; auto]. }
+  induction rl as [|p l IH]; [congruence|]. intros _ Hg s b Hc.
+  inversion Hg as [|? ? Hp Hl]; subst.
+  destruct l as [|p2 l'].
+  - simpl map. rewrite seq_bwr_one.
+    destruct (Hp s (Some b)) as (r & Hr & Hin).
+    { eapply cond_weaken; [|exact Hc]. intros Hk; apply Hk; simpl; auto. }
+    exists r. split; auto. intros x y. rewrite Hin, seq_rel_one.
+    destruct s; simpl; intuition (subst; auto).
+  - remember (p2 :: l') as rest eqn:Hrest. assert (Hne : rest <> []) by (subst; congruence).
+    simpl map. rewrite seq_bwr_cons by (destruct rest; simpl; congruence).
+    destruct (Hp None (Some b)) as (xs & Hxs & Hxin).
+    { destruct Hc as [Hk|[H1 H2]]; [left; apply Hk; simpl; auto|right; auto]. }
     rewrite Hxs. cbn [bind].
-    assert (Hfw : forall z, Rf pl z b ->
-      exists r0, seq_fw (map F init) None (Some z) = Ok r0
-        /\ forall x y, In (x, y) r0 <->
-             seq_rel (map Rf init) x y /\ y = z /\ (2 <= length init -> In x (nodes g))).
-    { intros z HRz. apply seq_fw_end; auto.
-      destruct Hc as [[_ Hk]|[_ Hn]].
-      - left. intros q Hq. apply Hk. apply in_or_app; auto.
-      - right. apply end_nd_In. apply end_nd_In in Hn.
-        destruct (Rf_RN _ _ _ HRz) as [->|[? _]]; auto. }
+    assert (Hz : forall sz, In sz xs -> Rf p (fst sz) b /\ snd sz = b).
+    { intros [z y] Hzy. apply Hxin in Hzy. simpl in *. destruct Hzy as [? ->]. auto. }
+    assert (Hcz : forall sz, In sz xs -> cond (allK rest) s (Some (fst sz))).
+    { intros sz Hsz. destruct Hc as [Hk|[H1 H2]].
+      - left. intros q Hq. apply Hk. right; auto.
+      - right. split; auto. apply end_nd_In. apply end_nd_In in H2.
+        destruct (Hz sz Hsz) as [HR _]. destruct (Rf_RN _ _ _ HR) as [->|[? _]]; auto. }
     destruct (rconcat_spec (fun sz : pr =>
-       rmap (map (fun r : pr => (fst r, snd sz))) (seq_fw (map F init) None (Some (fst sz)))) xs)
+       rmap (map (fun r : pr => (fst r, snd sz))) (seq_bwr (map F rest) s (Some (fst sz)))) xs)
       as (r & Hr & Hrin).
-    { intros [z y] Hzy. apply Hxin in Hzy. destruct Hzy as [HR Hy]. simpl in Hy. subst y.
-      destruct (Hfw z HR) as (r0 & Hr0 & _). cbn [fst snd]. rewrite Hr0. cbn [rmap bind]. eauto. }
-    exists r. split; auto. intros x y. rewrite Hrin, map_app, seq_rel_app. split.
-    + intros ([z y'] & l0 & Hzy & Hl0 & Hy). apply Hxin in Hzy. destruct Hzy as [HR Hyb].
-      simpl in Hyb. subst y'. destruct (Hfw z HR) as (r0 & Hr0 & Hin0).
-      cbn [fst snd] in Hl0. rewrite Hr0 in Hl0. cbn [rmap bind] in Hl0. injection Hl0 as <-.
+    { intros sz Hsz. destruct (IH Hne Hl s (fst sz) (Hcz sz Hsz)) as (r0 & Hr0 & _).
+      rewrite Hr0. cbn [rmap bind]. eauto. }
+    exists r. split; auto. intros x y. rewrite Hrin. simpl rev. rewrite map_app. simpl map.
+    rewrite seq_rel_snoc. split.
+    + intros (sz & l0 & Hsz & Hl0 & Hy).
+      destruct (IH Hne Hl s (fst sz) (Hcz sz Hsz)) as (r0 & Hr0 & Hr0in).
+      rewrite Hr0 in Hl0. cbn [rmap bind] in Hl0. injection Hl0 as <-.
       rewrite in_map_iff in Hy. destruct Hy as ([x' z'] & Heq & Hxz). simpl in Heq.
-      injection Heq as E1 E2. subst x' y. apply Hin0 in Hxz. destruct Hxz as (Hs & E3 & _). subst z'.
-      split; auto. exists z. split; auto. simpl. eauto.
-    + intros [(z & Hs & Hl) Hyb]. simpl in Hl. destruct Hl as (y' & HR & Hy'). subst y' y.
-      destruct (Hfw z HR) as (r0 & Hr0 & Hin0).
-      exists (z, b), (map (fun r1 : pr => (fst r1, b)) r0).
-      split; [apply Hxin; simpl; auto|]. split; [cbn [fst snd]; rewrite Hr0; reflexivity|].
-      rewrite in_map_iff. exists (x, z). split; [reflexivity|]. apply Hin0.
-      split; auto. split; auto. intros Hlen.
-      (* x is a node unless everything collapses onto an end outside the graph *)
-      destruct (seq_rel_RN' _ _ _ Hs) as [Hxz|[? _]]; auto. subst z.
-      destruct (Rf_RN _ _ _ HR) as [Hxy|[? _]]; auto. subst b.
-      destruct (in_dec N.eq_dec x (nodes g)) as [|Hnx]; auto. exfalso.
-      destruct Hc as [[[Hlt|Hnn] _]|[_ Hn]].
-      * rewrite app_length in Hlt. simpl in Hlt. lia.
-      * apply Hnn. apply Forall_app. split; [eapply seq_refl_nullable; eauto|].
-        constructor; [|constructor]. eapply Nf_refl; eauto.
-      * apply end_nd_In in Hn. tauto.
+      injection Heq as E1 E2. subst x' y. apply Hr0in in Hxz. destruct Hxz as (Hs & E3 & He). subst z'.
+      destruct (Hz sz Hsz) as [HR Hf]. split; [|split; auto]. exists (fst sz). rewrite Hf. auto.
+    + intros ((z & Hs & HR) & Hy & He). subst y.
+      assert (Hzb : In (z, b) xs) by (apply Hxin; simpl; auto).
+      destruct (IH Hne Hl s z (Hcz (z, b) Hzb)) as (r0 & Hr0 & Hr0in).
+      exists (z, b), (map (fun r1 : pr => (fst r1, b)) r0). split; auto.
+      split; [cbn [fst snd]; rewrite Hr0; reflexivity|].
+      rewrite in_map_iff. exists (x, z). split; [reflexivity|]. apply Hr0in. auto.
 Qed.
 
 Lemma ev_seq_spec l : l <> [] -> Forall good l ->
-  ev_spec (ev_seq (map F l)) (seq_rel (map Rf l)) (Kseq l).
+  ev_spec (ev_seq (map F l)) (seq_rel (map Rf l)) (allK l).
 Proof.
   intros Hne Hg s o Hc. unfold ev_seq. destruct s as [a|]; [|destruct o as [b|]].
-  - destruct (seq_fw_bound l Hne Hg a o) as (r & Hr & Hin).
-    { eapply cond_weaken; [|exact Hc]. intros [_ Hk]; auto. }
+  - destruct (seq_fw_bound l Hne Hg a o Hc) as (r & Hr & Hin).
     exists r. split; auto. intros x y. rewrite Hin, ends_ok_bound. tauto.
-  - destruct (seq_bw_spec l Hne Hg b Hc) as (r & Hr & Hin).
-    exists r. split; auto.
+  - unfold seq_bw. rewrite <- map_rev.
+    destruct (seq_bwr_bound (rev l)) with (s := @None term) (b := b) as (r & Hr & Hin).
+    + intros H. apply Hne. rewrite <- (rev_involutive l), H. reflexivity.
+    + apply Forall_rev. auto.
+    + eapply cond_weaken; [|exact Hc]. intros Hk q Hq. apply Hk. apply in_rev. auto.
+    + exists r. split; auto. intros x y. rewrite Hin, rev_involutive. simpl. tauto.
   - apply seq_fw_free; auto.
 Qed.
 
@@ -741,7 +704,7 @@ Proof.
   intros Hf HRN Hn s o Hc. unfold ev_mul.
   destruct (mul_raw_spec f R K n m Hf HRN Hn s o Hc) as (r & Hr & Hin). rewrite Hr. cbn [rmap bind].
   eexists; split; [reflexivity|]. intros x y.
-  rewrite in_app_iff, mul_pre_In, deduppr_In, Hin, mul_rel_split.
+  rewrite (dedup_acc_In pr_eqb pr_eqb_spec), mul_pre_In, Hin, mul_rel_split.
   destruct s as [a|], o as [b|]; simpl.
   - intuition (subst; auto; try congruence); left; repeat split; auto; try (left; discriminate); try (right; discriminate).
   - intuition (subst; auto; try congruence); left; repeat split; auto; try (left; discriminate); try (right; discriminate).
